@@ -248,6 +248,9 @@ func (w *World) lockInfoMode(may bool) *LockInfo {
 				} else if sc := cc.StaticCallee(); sc != nil {
 					targets = []*ssa.Function{sc}
 				}
+				if sc := cc.StaticCallee(); sc != nil && !cc.IsInvoke() && kind == "call" && sc.Signature.Recv() != nil && len(cc.Args) > 0 && inMod[sc] && freshUnpublishedAt(w, cc.Args[0], in) {
+					continue // a method run on an object nobody else can see yet: not a place the method is entered from with shared state
+				}
 				for _, t := range targets {
 					add(t, entryEdge{from: f, site: in, kind: kind})
 				}
@@ -851,4 +854,171 @@ func paramMayBeWritten(w *World, p ssa.Value, depth int) bool {
 		}
 	}
 	return false
+}
+
+// freshUnpublishedAt: the receiver v of the method call at `site` is an object this function created itself (a heap
+// allocation, or the result of a module constructor that returns one) and has not handed to anyone by the time the call
+// is made: up to there it was only kept in a local variable and used as the receiver of its own methods. Such an object
+// is not shared yet, and a method run on it needs none of the locks that guard the published instance
+// (`m := NewServiceMap(); m.Set(s); ...; lock(); r.services = m`).
+func freshUnpublishedAt(w *World, v ssa.Value, site ssa.Instruction) bool {
+	fn := site.Parent()
+	mayPrecede := func(in ssa.Instruction) bool {
+		if in == site {
+			return false
+		}
+		if in.Block() == site.Block() && instrIdx(in) < instrIdx(site) {
+			return true
+		}
+		// reachable through at least one edge
+		seen := map[*ssa.BasicBlock]bool{}
+		stack := append([]*ssa.BasicBlock{}, in.Block().Succs...)
+		for len(stack) > 0 {
+			b := stack[len(stack)-1]
+			stack = stack[:len(stack)-1]
+			if seen[b] {
+				continue
+			}
+			seen[b] = true
+			if b == site.Block() {
+				return true
+			}
+			stack = append(stack, b.Succs...)
+		}
+		return false
+	}
+	var isFresh func(x ssa.Value, depth int) bool
+	isFresh = func(x ssa.Value, depth int) bool {
+		switch y := x.(type) {
+		case *ssa.Alloc:
+			return y.Heap
+		case *ssa.Call:
+			g := y.Call.StaticCallee()
+			if g == nil || depth > 2 || len(g.Blocks) == 0 || g.Signature.Results().Len() != 1 {
+				return false
+			}
+			inMod := false
+			for _, f := range w.modFuncs {
+				if f == g {
+					inMod = true
+					break
+				}
+			}
+			if !inMod {
+				return false
+			}
+			n := 0
+			for _, b := range g.Blocks {
+				for _, in := range b.Instrs {
+					ret, ok := in.(*ssa.Return)
+					if !ok {
+						continue
+					}
+					n++
+					a, ok := ret.Results[0].(*ssa.Alloc)
+					if !ok || !a.Heap {
+						return false
+					}
+					// inside the constructor the object is only filled in
+					for _, r := range *a.Referrers() {
+						switch z := r.(type) {
+						case *ssa.Return, *ssa.DebugRef:
+						case *ssa.FieldAddr:
+							for _, rr := range *z.Referrers() {
+								if st, ok := rr.(*ssa.Store); !ok || st.Addr != ssa.Value(z) {
+									return false
+								}
+							}
+						default:
+							return false
+						}
+					}
+				}
+			}
+			return n > 0
+		}
+		return false
+	}
+	// uses of the object itself before the site: receiver of its own methods, field reads
+	usesOK := func(obj ssa.Value) bool {
+		if obj.Referrers() == nil {
+			return false
+		}
+		for _, r := range *obj.Referrers() {
+			if !mayPrecede(r) {
+				continue
+			}
+			switch z := r.(type) {
+			case *ssa.DebugRef:
+			case *ssa.FieldAddr:
+				for _, rr := range *z.Referrers() {
+					switch q := rr.(type) {
+					case *ssa.UnOp:
+					case *ssa.Store:
+						if q.Addr != ssa.Value(z) {
+							return false
+						}
+					case *ssa.DebugRef:
+					default:
+						return false
+					}
+				}
+			case *ssa.Call:
+				g := z.Call.StaticCallee()
+				if g == nil || g.Signature.Recv() == nil || len(z.Call.Args) == 0 || z.Call.Args[0] != obj {
+					return false
+				}
+				for _, a := range z.Call.Args[1:] {
+					if a == obj {
+						return false
+					}
+				}
+			case *ssa.Store:
+				// kept in a local variable of this function (checked by the caller for the cell case)
+				if z.Val == obj {
+					return false
+				}
+			default:
+				return false
+			}
+		}
+		return true
+	}
+	_ = fn
+	if u, ok := v.(*ssa.UnOp); ok && u.Op == token.MUL {
+		cell, ok := u.X.(*ssa.Alloc)
+		if !ok || cell.Referrers() == nil {
+			return false
+		}
+		for _, r := range *cell.Referrers() {
+			switch z := r.(type) {
+			case *ssa.DebugRef:
+			case *ssa.Store:
+				if z.Addr != ssa.Value(cell) || !isFresh(z.Val, 0) {
+					return false
+				}
+				// the fresh value itself goes nowhere else
+				for _, rr := range *z.Val.Referrers() {
+					if rr != ssa.Instruction(z) {
+						if _, dbg := rr.(*ssa.DebugRef); !dbg {
+							return false
+						}
+					}
+				}
+			case *ssa.UnOp:
+				if mayPrecede(z) || z == u {
+					if !usesOK(z) {
+						return false
+					}
+				}
+			default:
+				// captured by a closure, address taken, ...: fine only after the site
+				if mayPrecede(r) {
+					return false
+				}
+			}
+		}
+		return true
+	}
+	return isFresh(v, 0) && usesOK(v)
 }
